@@ -542,7 +542,9 @@ def register_whole(R):
 
     def gfw_hint(E, vars):
         """nkids(x) > 1  <=>  two distinct rows name x as parent (from the definition of kid / rank)"""
-        ctx = E.ghost["last-traverse-ctx"]
+        ctx = E.ghost.get("last-traverse-ctx")
+        if ctx is None:  # no traversal happened (the carrier changed shape): no steps, the postconditions stand on their own
+            return
         t = vars["self"]
         P, n = col(t, "pid").arr, nof(t)
         x, a, b = z3.Int(fresh_name("x")), z3.Int(fresh_name("a")), z3.Int(fresh_name("b"))
@@ -1273,6 +1275,76 @@ def register_whole(R):
                               "post/every-tip-and-furcation-other-than-the-root-ends-a-branch": gbw_then_post("every-tip-and-furcation-other-than-the-root-ends-a-branch", gbw_hint_ends, kind="ends"),
                               "post/every-branch-starts-at-the-root-or-where-another-branch-ends": gbw_then_post("every-branch-starts-at-the-root-or-where-another-branch-ends", kind="ends")}),
           notes="whole function, trees of any size (traverse client rule with (list of branches, chain) leave values; loop of the callback cut at an invariant); the input tree is frozen")
+
+    # ================================================================ BranchTree.get_origin_node_branches / get_origin_branches
+    # "[the branch tree] remembers each original branch's points": the two read accessors of the `branches` registry (start node -> the
+    # original branches that start there).  The Branch objects are opaque references here.
+    BT = "swcgeom/core/branch_tree.py"
+
+    def bt_obj(S, d):
+        from swcgeom.core.branch_tree import BranchTree
+
+        return S.obj(BranchTree, branches=d)
+
+    def onb_setup(S):
+        d = S.pdict("ref", name="branches")
+        return dict(self=bt_obj(S, d), idx=S.int("idx"))
+
+    def onb_has(E, v, o):
+        return sel(o["self"].fields["branches"].dom, to_z3(o["idx"], "int"))
+
+    def onb_post(which):
+        def f(E, v, o):
+            d0, d1 = o["self"].fields["branches"], v["self"].fields["branches"]
+            if which == "registry-untouched":
+                return d1 is v["self"].fields["branches"] and d1.uid == d0.uid and z3.And(d1.dom == d0.dom, d1.val == d0.val)
+            if not (isinstance(v["result"], Sym) and v["result"].kind in ("ref", "oref", "int")):
+                return False
+            return to_z3(v["result"], "ref") == sel(d0.val, to_z3(o["idx"], "int"))
+
+        return f
+
+    R.add(f"{BT}:BranchTree.get_origin_node_branches", prop="C08", setup=onb_setup,
+          raises={"KeyError": ("only-when-no-branch-starts-at-the-node", lambda E, v, o: z3.Not(onb_has(E, v, o)))},
+          ensures=[("the-entry-registered-under-the-node", onb_post("entry")), ("registered-node-only", lambda E, v, o: onb_has(E, v, o)), ("registry-untouched", onb_post("registry-untouched"))],
+          options=dict(OPTS))
+
+    def ob_setup(k):
+        def f(S):
+            from pyvc.values import PDict
+
+            items = {}
+            for j in range(k):
+                l = S.plist("ref", name=f"at{j}")
+                l.frozen = True
+                items[10 + 3 * j] = l
+            d = PDict(items)
+            d.frozen = True
+            return dict(self=bt_obj(S, d))
+
+        return f
+
+    def ob_post(which):
+        def f(E, v, o):
+            res, lists = v["result"], list(o["self"].fields["branches"].items.values())
+            if not isinstance(res, PList):
+                return False
+            if which == "fresh-list":
+                return res.uid not in E.entry_uids
+            i = z3.Int(fresh_name("i"))
+            parts, off = [], z3.IntVal(0)
+            for c in lists:
+                L = X.ilen(c)
+                parts.append(z3.Implies(z3.And(off <= i, i < off + L), X.iat(res, i, "ref") == X.iat(c, i - off, "ref")))
+                off = off + L
+            return z3.And(X.ilen(res) == off, z3.ForAll([i], z3.And(*parts)) if parts else z3.BoolVal(True))
+
+        return f
+
+    R.add(f"{BT}:BranchTree.get_origin_branches", prop="C08",
+          variants={f"{k} start nodes": ob_setup(k) for k in (0, 1, 2, 3)},
+          ensures=[("the-registered-branches-of-every-start-node-in-registration-order", ob_post("content")), ("fresh-list", ob_post("fresh-list"))],
+          notes="the number of start nodes is fixed per variant (0-3); the number of branches per start node is symbolic; the registry and its lists are frozen", options=dict(OPTS))
 
 
 def _fresh_frozen_ints(E):
